@@ -299,20 +299,27 @@ def run_fault_scenario(sc, out, before):
         res["exc_class"] = type(exc).__name__
     except Exception as exc:   # the library's own error for a broken input
         res["outcome"] = "raised:" + type(exc).__name__
+    n_return = out.n
     res["fault_fired"] = bool(sc["_state"]["raised"]) or \
         (sc.get("fault") or {}).get("kind") in ("cap", "shape")
     res["user_calls"] = sc["_state"]["n"]
-    observe_after(res, out, before)
+    observe_after(res, out, before, n_return)
     return res
 
 
-def observe_after(res, out, before):
+def observe_after(res, out, before, n_return=None):
     """Census after the call ended. Deterministic part: callbacks that are in
-    flight are allowed to finish (joined), after that no timer may be armed
-    and no foreign thread alive; then nothing may be written any more."""
+    flight are allowed to finish (joined; a callback may still be waiting for
+    the library's lock, after which it must see that the call is over and
+    write nothing), after that no timer may be armed and no foreign thread
+    alive; then nothing may be written any more. n_return: bytes written up
+    to the moment the call came back."""
+    if n_return is None:
+        n_return = out.n
     for t in list(TIMERS):
         if t.in_callback:
             t.join(2.0)
+    res["bytes_by_inflight_callback_after_return"] = out.n - n_return
     res["armed_timers_at_return"] = len(armed_timers())
     n_end = out.n
     res["threads_at_return"] = len(foreign_threads(before))
@@ -353,6 +360,7 @@ def run_schedule_scenario(sc, out, before, u):
     gate = Gate()
     DEADLOCK["released"] = False
     hits = {"n": 0}
+    n_return = None
 
     def on_line(c, ln):
         if c is not code or ln != line:
@@ -402,6 +410,7 @@ def run_schedule_scenario(sc, out, before, u):
                     if t.in_callback:
                         t.join(1.0)
             pb.exit()
+            n_return = out.n
             gate.set()
         else:
             # caller is held inside its own update()/exit(); meanwhile timer
@@ -417,13 +426,14 @@ def run_schedule_scenario(sc, out, before, u):
             if action == "update+exit":
                 pb.update(3)
             pb.exit()
+            n_return = out.n
             res["reached"] = reached.is_set()
             gate.set()
     finally:
         mon.set_local_events(tool, code, 0)
         mon.register_callback(tool, mon.events.LINE, None)
         mon.free_tool_id(tool)
-    observe_after(res, out, before)
+    observe_after(res, out, before, n_return)
     return res
 
 
